@@ -507,6 +507,16 @@ func runC12(c *core.Ctx) error {
 		return err
 	}
 	// call histories (SchemaApi_jdoc.cfg): results do not depend on earlier calls, returned values stay intact
+	// one document read lexeme by lexeme, Check and Len in between (SchemaApi_jdoc1.cfg: up to eight calls)
+	{
+		var one [][2]string
+		for _, t := range []string{"[1]", "{\"a\":1}", "{\"a\":[true,null]}", "[1, [2, {\"k\": \"v\"}], 3]", "12", "[1, 2", "\x00trailing:[1] x", "{\"a\": 1,}"} {
+			one = append(one, [2]string{t, t})
+		}
+		if err := runObjHistories(c, objKinds["jdoc1"], one); err != nil {
+			return err
+		}
+	}
 	if err := runObjHistories(c, objKinds["jdoc"], objPairs([]string{"", " ", "\n\t \r\n", "1", "12.5 ", "[1, 2]", "{\"a\": [true, null]}", "tru", "[1, 2", "\"s\"", "\x00trailing:", "\x00trailing:   ", "\x00trailing:42\n\nrest", "\x00trailing:{\"a\": 1} x", "\x00trailing:x"}, c.Pick(15, 60), c.Seed)); err != nil {
 		return err
 	}
